@@ -138,29 +138,41 @@ CHECKS["C10"] = ("fault_enumeration",
     "failure is covered by the model only.", "4 C10")
 
 CHECKS["C12"] = ("model_checking",
-    "TLA+ Server.tla (accept loop pc, token set, permit, connection phases) model-checked by TLC (Limit, Conservation); "
-    "hook logs of real server runs validated event by event by TLC; exhaustive TokenSet API sequences",
-    "Server.tla has one action per await boundary of accept_loop and per connection phase; TLC checks Limit and "
-    "Conservation (avail + serviced + held-by-acceptor = max in every state) for Max=2/4 clients (quick) and Max=3/6 "
-    "clients (thorough, 2.0M states). Binding: 300 (quick) / 3000 (thorough) real server runs with max_conns 1..4, "
-    "2..3x clients and every ending kind; every hook event (sequence numbers assigned inside servlin) is one action of "
-    "Trace_Server with Limit and Conservation evaluated after each, slots fully conserved at quiescence, and a "
-    "positive refill observation (max gated handlers entered simultaneously). TokenSet/Token driven directly through "
-    "every API sequence to depth 6/8.",
-    "Trusted: TLC; hook placement (TokenReturn is logged before the unit is re-inserted, so log order is a valid "
-    "linearisation); EMFILE injection is model-only.", "4 C12")
+    "TLA+ ServerSteps.tla (one step function per hook event: accept loop pc, token set, permit, connections) model-checked "
+    "by TLC as a machine (Limit, Conservation, Refill) and, as a counting abstraction with the maximum left unconstrained, "
+    "proved inductive by Apalache (bound to the machine by a TLC refinement check); hook logs of real server runs "
+    "validated event by event by TLC through the same step function; exhaustive TokenSet API sequences",
+    "ServerSteps!Apply has one case per hook event (sequence numbers assigned inside servlin) and per harness step. "
+    "MC_ServerSteps runs it as a machine (187k states quick / 497k thorough) and checks Limit, Conservation (avail + live + "
+    "accepted + tokens on their way back + held-by-acceptor = max in every state) and Refill; SlotsInd.tla is its counting "
+    "abstraction with Max an arbitrary positive integer: Apalache discharges Init => IndInv, IndInv /\\ Next => IndInv' and "
+    "IndInv => Limit /\\ Conservation, and TLC checks (RefinesSlots) that every step of the machine is a step of the "
+    "abstraction. The coarser Server.tla is model-checked too. Binding: 300 (quick) / 3000 (thorough) real server runs "
+    "with max_conns 1..4, 2..3x clients, every ending kind and accept failures provoked by exhausting the descriptor "
+    "table (EMFILE); every hook event is replayed through Apply with Limit and Conservation evaluated after each, slots "
+    "fully conserved at quiescence, and an exact refill observation (max gated handlers entered simultaneously). TokenSet / "
+    "Token driven directly through every sequence of 7 operations (incl. drop while the owner unwinds from a panic, drop "
+    "on another thread) to depth 5/6.",
+    "Trusted: TLC, Apalache; hook placement (TokenReturn is logged before the unit is re-inserted, so log order is a valid "
+    "linearisation).", "4 C12")
 CHECKS["C13"] = ("model_checking",
-    "TLA+ Server.tla safety (StopOrder, AtMostOneMore) and liveness (revoked ~> stopped under weak fairness of server "
-    "actions only) model-checked by TLC, with the pre-repair design shown to violate it; hook logs of real server runs "
-    "with revocation at random phases validated by TLC",
-    "TLC checks Prompt == revoked ~> stopped on the finite model without state constraint, and finds the counterexample "
-    "(all slots idle, accept loop parked in WaitToken) when the token wait is not raced against the permit. Binding: "
-    "each real run ends with revocation at whatever phase its random history reached; the hook log must show listener "
-    "release before the stop signal, the harness must receive the signal within 5 s, a late connect must be refused, "
-    "no connection may read more than one request after the permit drop returned, and handlers running at revocation "
-    "must have their response written.",
+    "TLA+ ServerSteps.tla / Server.tla safety (StopOrder, AtMostOneMore, mustEnd) and liveness (revoked ~> stop signal under "
+    "weak fairness of the accept loop only) model-checked by TLC, with three pre-repair designs shown to violate them; hook "
+    "logs of real server runs with revocation at random phases, post-revocation probes and a dedicated accept-vs-revoke "
+    "race driver validated by TLC through the same step function",
+    "MC_ServerSteps checks Prompt == (revocation completed) ~> (stop signal sent) without state constraint and finds the "
+    "counterexamples of D8 (token wait not raced against the permit: MC_Server_pinned, MC_ServerSteps_pinned) and of D14 (a "
+    "connection accepted during revocation keeps a permit that is never revoked: MC_ServerSteps_subpermit violates "
+    "AtMostOneMore). Binding: each real run ends with revocation at whatever phase its random history reached; the hook "
+    "log must show listener release before the stop signal, the harness must receive the signal within 5 s, a late connect "
+    "must be refused, every connection still open is probed with up to three further requests of which at most one may be "
+    "read (and none if its last look at the permit came after the revocation), and handlers running at revocation must "
+    "have their response written. permit-race: six accept loops share one permit and a spinning thread revokes it the "
+    "moment the hook log shows AccAccepted (6 000 / 120 000 trials): no connection may be left with a permit the "
+    "completed revocation did not reach.",
     "Trusted: TLC; bounded liveness observed as a 5 s deadline (typical latency is below 1 ms); RevokeBegin/RevokeDone "
-    "stamps bracket the permit drop so requests read during the drop are not miscounted.", "4 C13")
+    "stamps bracket the permit drop so requests read during the drop are not miscounted. The race driver is "
+    "probabilistic (about 1 % of the trials hit the window on the unrepaired tree).", "4 C13")
 
 CHECKS["C11"] = ("model_checking",
     "TLA+ Sse.tla (bounded queue, sender handles, writer polls) model-checked by TLC; every edge of its state graph "
@@ -223,10 +235,13 @@ CHECKS["C19"] = ("model_checking",
     "with synthetic mtimes, directory compared after every call; (ii) logwriter-run: real writer threads over the "
     "property's configuration grid, sequence-numbered events of 100 B..60 KiB, files left by earlier runs, graceful "
     "restarts, rotation by age; after every batch the directory (per file: length, line count, first/last sequence "
-    "number, whole lines, consecutive numbers) must be exactly the one LoopW predicts and satisfy every clause.",
-    "Trusted: TLC; the lexical file projection; 'the batch's last line is on disk' as the stability point. Assumed: "
-    "distinct mtimes consistent with log order for files of earlier runs (enforced by the harness; the tied case is "
-    "documented by MC_LogFiles_ties); graceful restarts only; file age counted from closing time.", "4 C19")
+    "number, whole lines, consecutive numbers) must be exactly the one LoopW predicts and satisfy every clause; (iii) "
+    "logwriter-crash: the writer runs in a child process killed by SIGKILL 1..3 times in a row, every 'at every moment' "
+    "clause is demanded of the directory found, and a restarted writer continues exactly as predicted.",
+    "Trusted: TLC; the lexical file projection; 'the batch's last line is on disk' as the stability point. Known finding "
+    "D16: files of an earlier run that share one mtime are deleted in arbitrary order (dedicated tie scenarios, "
+    "TieExplains; MC_LogFiles_ties keeps the model counterexample); elsewhere the harness re-stamps tied mtimes. File age "
+    "counted from closing time; loss of the page cache (machine crash) not explored.", "4 C19")
 
 CHECKS["C18"] = ("model_checking",
     "TLA+ spec Logger.tla (thread-local tag lists, the None/Some/Default logger cell, composition with the fixed tag "
